@@ -12,6 +12,8 @@ from .. import cards, rel, yrun
 from ..engine import digest
 from ..ref import ref_xs
 
+HISTORY_SWEEP = True
+HISTORY_SWEEP_PER_PROCESS = 5  # each state already consists of several real runs
 ID = "C11"
 XS_UNPOL = ["XSHERANC", "XSHERANCAVG", "XSHERACC", "XSCHORUSCC", "XSNUTEVCC", "XSNUTEVNU", "FW", "F1", "XSFPFCC"]
 PROJ = ["electron", "positron", "neutrino", "antineutrino"]
@@ -49,6 +51,11 @@ def states(tier, seed):
         for p, pr in itertools.product(["NC", "CC"], ["electron", "antineutrino"]):
             out.append({"family": "unpol", "process": p, "projectile": pr, "heavyness": "light", "scheme": "ZM-VFNS", "pto": 2, "tmc": 0})
             out.append({"family": "pol", "process": p, "projectile": pr, "heavyness": "light", "scheme": "ZM-VFNS", "pto": 2, "tmc": 0})
+    # O(a_s^3) light kernels (fl11 flavour class, N3LO order keys incl. all scale-variation keys)
+    for p, pr in (("NC", "positron"), ("CC", "neutrino"), ("EM", "electron")):
+        st = {"family": "unpol", "process": p, "projectile": pr, "heavyness": "light", "scheme": "ZM-VFNS", "pto": 3, "tmc": 0}
+        if st not in out:
+            out.append(st)
     return out
 
 
